@@ -85,6 +85,21 @@ Triangulate(rs) == IF Len(rs) = 1
                    THEN <<<<BRp(rs[1]), TLp(rs[1]), TRp(rs[1])>>, <<BRp(rs[1]), TLp(rs[1]), BLp(rs[1])>>>>
                    ELSE TrisFrom(rs, 1)
 
+\* ------------------------------------------------------------------ polygon.go: MergeRects
+\* the outline of the corridor, counterclockwise in SVG coordinates: the left chain top-down, then the right chain bottom-up
+RECURSIVE LeftChain(_, _), RightChain(_, _)
+LeftChain(rs, i) == IF i > Len(rs) THEN <<BLp(rs[Len(rs)])>>
+                    ELSE (IF i = 1 THEN <<TLp(rs[1])>>
+                          ELSE IF rs[i - 1][1] # rs[i][1] THEN <<<<rs[i - 1][1], rs[i][2]>>, TLp(rs[i])>>
+                          ELSE <<TLp(rs[i])>>) \o LeftChain(rs, i + 1)
+RightChain(rs, i) == IF i > Len(rs) THEN <<BRp(rs[Len(rs)])>>
+                     ELSE (IF i = 1 THEN <<TRp(rs[1])>>
+                           ELSE IF rs[i - 1][3] # rs[i][3] THEN <<BRp(rs[i - 1]), <<rs[i][3], rs[i - 1][4]>>>>
+                           ELSE <<BRp(rs[i - 1])>>) \o RightChain(rs, i + 1)
+SeqReverse(q) == [i \in DOMAIN q |-> q[Len(q) + 1 - i]]
+MergeRects(rs) == LeftChain(rs, 1) \o SeqReverse(RightChain(rs, 1))
+PolySides(pts) == [i \in DOMAIN pts |-> <<pts[i], pts[(i % Len(pts)) + 1]>>]
+
 \* ------------------------------------------------------------------ triangle.go
 RECURSIVE ContainsFrom(_, _, _, _)
 ContainsFrom(t, p, i, s) ==
